@@ -8,6 +8,7 @@ import (
 	"encoding/json"
 	"fmt"
 	"io"
+	"math"
 	"math/rand"
 	"net/http"
 	"net/http/httptest"
@@ -450,6 +451,7 @@ func Monitor(c *Case, out Out, body []byte, ents []api.Entry) string {
 		}
 	}
 	var got []map[string]interface{}
+	nullObjs := 0
 	for _, o := range objs {
 		if idOf(o).T == "null" {
 			if _, isErr := code(o); !isErr {
@@ -457,9 +459,23 @@ func Monitor(c *Case, out Out, body []byte, ents []api.Entry) string {
 					return "a result object with id null"
 				}
 			}
+			nullObjs++
 			continue
 		}
 		got = append(got, o)
+	}
+	// an object with id null is owed only to an element whose id could not be determined (invalid type);
+	// a notification — id absent or null — is never answered, whether it succeeds or fails
+	undetermined := 0
+	for i := range reqs {
+		switch reqs[i].ID.T {
+		case "absent", "null", "num", "str":
+		default:
+			undetermined++
+		}
+	}
+	if nullObjs != undetermined {
+		return fmt.Sprintf("%d response object(s) with id null for %d element(s) whose id could not be determined: a notification was answered", nullObjs, undetermined)
 	}
 	if len(got) != len(want) {
 		return fmt.Sprintf("%d response objects with an id for %d id-bearing requests", len(got), len(want))
@@ -784,9 +800,23 @@ var undecodableSingles = []struct {
 	{`{"id":7,"meta":5,"method":"T.Void"}`, "7"},
 	{`nul`, ""},
 	{`{"id":1,"method":"T.Void","params":}`, ""},
+	// a well-formed request followed by further bytes: the body as a whole is not one JSON value
+	{`{"jsonrpc":"2.0","id":5,"method":"T.Void"} x`, ""},
+	{`{"jsonrpc":"2.0","id":5,"method":"T.Void"}}`, ""},
+	{`{"jsonrpc":"2.0","id":5,"method":"T.Void"}]`, ""},
+	{`{"jsonrpc":"2.0","id":5,"method":"T.Void"},`, ""},
+	{`{"jsonrpc":"2.0","id":5,"method":"T.Void"}{"jsonrpc":"2.0","id":6,"method":"T.Void"}`, ""},
+	{`{"jsonrpc":"2.0","id":5,"method":"T.Void"}` + "\n" + `{"jsonrpc":"2.0","id":6,"method":"T.Void"}`, ""},
+	{`{"jsonrpc":"2.0","method":"T.Void"} 1`, ""},
+	{`[{"jsonrpc":"2.0","id":5,"method":"T.Void"}] x`, ""},
 }
 
-var undecodableBatches = []string{`[1,2]`, `[{"id":1,"method":3}]`, `[{"id":1,"method":"T.Void"},]`, `["a"]`, `[{"id":1 "method":"T.Void"}]`, `[[]]`, `[tru]`}
+var undecodableBatches = []string{`[1,2]`, `[{"id":1,"method":3}]`, `[{"id":1,"method":"T.Void"},]`, `["a"]`, `[{"id":1 "method":"T.Void"}]`, `[[]]`, `[tru]`,
+	// a well-formed batch followed by further bytes (the body still starts with "[" and ends with "]")
+	`[{"jsonrpc":"2.0","id":5,"method":"T.Void"}][{"jsonrpc":"2.0","id":6,"method":"T.Void"}]`,
+	`[{"jsonrpc":"2.0","id":5,"method":"T.Void"}] , {"jsonrpc":"2.0","id":6,"method":"T.Void"}]`,
+	`[{"jsonrpc":"2.0","id":5,"method":"T.Void"}]]`,
+}
 
 func Generate(seed int64, n int) []*Case {
 	g := &gen{r: fw.Rng(seed, "c09")}
@@ -835,6 +865,10 @@ func Generate(seed int64, n int) []*Case {
 			}
 			sep := fw.Pick(g.r, []string{",", " ,\n", ", "})
 			c = mk(Body{Kind: "batch", Reqs: rs}, pad(g.r, "["+pad(g.r, strings.Join(texts, sep))+"]"), 1<<20)
+		}
+		// "no limit", spelt as the largest value the option's type can hold
+		if g.r.Intn(25) == 0 {
+			c.Max = math.MaxInt64 - int64(g.r.Intn(2))
 		}
 		// size limit around the body length
 		if g.r.Intn(6) == 0 {
